@@ -951,6 +951,14 @@ def reg_to_image_stack_plumbing(R):
             return False
         return z3.And(zint(L.n) == n, z3.ForAll([j], z3.Implies(z3.And(0 <= j, j < n), z3.Select(L.cols[0], j) == at(j))))
 
+    def call_slices(E, v, o):
+        cs = calls(E, "np.stack")
+        if len(cs) != 1:
+            return False
+        vv = dict(v)
+        vv["result"] = cs[0]["frames"]  # the frames that were stacked along the new first axis
+        return B.tr_slices(E, vv, o)
+
     R.add(
         f"{TR}:ToImageStack.__call__",
         prop="C20",
@@ -958,7 +966,8 @@ def reg_to_image_stack_plumbing(R):
         requires=[("resolution-positive", B.res_positive)] + [B.scene_wf(w) for w in B.SCENE_WF],
         inlined_loops={TRANSFORM_KEY: transform_loop()},
         ensures=[("result-is-the-frames-of-all-z-slices-stacked-along-a-new-FIRST-axis-(Z,X,Y)-in-slice-order", call_stack)] + plumbing
-        + [("box-is-tight-to-less-than-one-unit", ts_box("tight")), ("box-corners-are-whole-numbers", ts_box("integral"))],
+        + [("box-is-tight-to-less-than-one-unit", ts_box("tight")), ("box-corners-are-whole-numbers", ts_box("integral")),
+           ("stack-has-one-slice-for-every-voxel-centre-below-the-box-top-in-order-each-over-the-x,y-range-of-the-box", call_slices)],
         notes="np.stack(list(transform(x, verbose=False)), axis=0): transform is inlined (its loop cut by the invariant of its own contract)",
     )
 
